@@ -453,7 +453,7 @@ def gen_raw_driver(schema, rw):
 class RawTU(object):
     """schema -> prophyc --cpp_out -> layout/swap driver -> executable."""
 
-    def __init__(self, schema, workdir=None, sanitize=True, layout=None):
+    def __init__(self, schema, workdir=None, sanitize=True, layout=None, isar=False):
         """layout: a multifile.Layout of the same schema - the definitions are then spread over several files that
         include each other, all compiled in one prophyc run, and the driver includes every generated header."""
         from .refwire import RefWire
@@ -462,7 +462,15 @@ class RawTU(object):
         self.text = schema.to_prophy()
         self.rw = RefWire(schema)
         drv, self.facts = gen_raw_driver(schema, self.rw)
-        if layout is None:
+        if isar:
+            # the same schema described in isar XML (extents and constants are handed on as expression text)
+            src = os.path.join(self.dir, 'm.xml')
+            self.text = ir.to_isar(schema.decls)
+            with open(src, 'w') as f:
+                f.write(self.text)
+            self.nodes = pyh.run_prophyc(['--isar', src, '--cpp_out', self.dir])['m']
+            sources = ['m.pp.cpp']
+        elif layout is None:
             src = os.path.join(self.dir, 'm.prophy')
             with open(src, 'w') as f:
                 f.write(self.text)
